@@ -182,7 +182,11 @@ func (s *session) runV1(name string, op J) J {
 		}
 		return r
 	case "get":
-		o, err := cl.GetItem(&dynamodb.GetItemInput{TableName: table, Key: itemToV1(obj(op, "key")), ExpressionAttributeNames: v1Names(op), ProjectionExpression: pstr(op, "projection")})
+		gin := &dynamodb.GetItemInput{TableName: table, Key: itemToV1(obj(op, "key")), ExpressionAttributeNames: v1Names(op), ProjectionExpression: pstr(op, "projection")}
+		if has(op, "atg") {
+			gin.AttributesToGet = aws.StringSlice(strs(op["atg"])) // the legacy parameter: ignored by the library
+		}
+		o, err := cl.GetItem(gin)
 		r := res(err)
 		if o != nil {
 			r["item"] = itemFromV1(o.Item)
@@ -359,6 +363,14 @@ func (s *session) runV1(name string, op J) J {
 				for _, v := range item {
 					if v != nil && v.M != nil {
 						v.M["poked"] = &mt.Item{S: sp("p")}
+					}
+					if v != nil {
+						// ... and into every map that is an element of a top-level list attribute
+						for _, e := range v.L {
+							if e != nil && e.M != nil {
+								e.M["poked"] = &mt.Item{S: sp("p")}
+							}
+						}
 					}
 				}
 			}
